@@ -1,3 +1,4 @@
+pub mod c01;
 pub mod c02;
 pub mod c07;
 pub mod c12;
@@ -12,6 +13,7 @@ pub type ReplayFn = fn(&Config, &Value) -> Local;
 
 pub fn dispatch(prop: &str) -> Option<(RunFn, ReplayFn)> {
     Some(match prop {
+        "C01" => (c01::run, c01::replay),
         "C02" => (c02::run, c02::replay),
         "C07" => (c07::run, c07::replay),
         "C12" => (c12::run, c12::replay),
